@@ -1477,6 +1477,18 @@ pub fn run_c18(cfg: &Config) -> i32 {
 					} else {
 						serde_json::Value::Object((0..n).map(|j| (format!("k{}", j), serde_json::Value::from(j as u64))).collect())
 					}
+				} else if k == 12 && i < 8 {
+					// a large container inside a large container (both kinds, inner one early / in the middle / last)
+					let (outer, inner) = [(9_000usize, 5_000usize), (1_100, 1_030), (4_097, 4_097), (70_000, 66_000), (1_024, 1_024), (5_000, 9_000), (2_000, 1_500), (300, 70_000)][i];
+					rep.max("widest_converted_container", outer.max(inner) as u64);
+					let at = [10usize, outer / 2, outer - 1][i % 3];
+					let inner_arr = serde_json::Value::Array((0..inner).map(|j| serde_json::Value::from(j as u64)).collect());
+					let inner_obj = serde_json::Value::Object((0..inner).map(|j| (format!("i{}", j), serde_json::Value::from(j as u64))).collect());
+					if i % 2 == 0 {
+						serde_json::Value::Array((0..outer).map(|j| if j == at { inner_arr.clone() } else if j == at + 1 { inner_obj.clone() } else { serde_json::Value::from(j as u64) }).collect())
+					} else {
+						serde_json::Value::Object((0..outer).map(|j| (format!("k{}", j), if j == at { inner_obj.clone() } else if j == at + 1 { inner_arr.clone() } else { serde_json::Value::from(j as u64) })).collect())
+					}
 				} else {
 					gen_sj_value(&mut rng, 0)
 				};
@@ -1510,6 +1522,17 @@ pub fn run_c18(cfg: &Config) -> i32 {
 					} else {
 						RVal::Obj((0..n).map(|j| (format!("k{}", j), RVal::Num(j.to_string()))).collect())
 					}
+				} else if k == 13 && i < 8 {
+					let (outer, inner) = [(9_000usize, 5_000usize), (1_100, 1_030), (4_097, 4_097), (70_000, 66_000), (1_024, 1_024), (5_000, 9_000), (2_000, 1_500), (300, 70_000)][i];
+					rep.max("widest_converted_container", outer.max(inner) as u64);
+					let at = [10usize, outer / 2, outer - 1][i % 3];
+					let inner_arr = RVal::Arr((0..inner).map(|j| RVal::Num(j.to_string())).collect());
+					let inner_obj = RVal::Obj((0..inner).map(|j| (format!("i{}", j), RVal::Num(j.to_string()))).collect());
+					if i % 2 == 0 {
+						RVal::Arr((0..outer).map(|j| if j == at { inner_arr.clone() } else if j == at + 1 { inner_obj.clone() } else { RVal::Num(j.to_string()) }).collect())
+					} else {
+						RVal::Obj((0..outer).map(|j| (format!("k{}", j), if j == at { inner_obj.clone() } else if j == at + 1 { inner_arr.clone() } else { RVal::Num(j.to_string()) })).collect())
+					}
 				} else {
 					gen_c17_value(&mut rng, k % 16 == 3)
 				};
@@ -1527,7 +1550,7 @@ pub fn run_c18(cfg: &Config) -> i32 {
 		cfg,
 		EvidenceMeta {
 			id: "C18",
-			rule: "cases: serde_json values (all three number representations incl. u64::MAX, i64::MIN, -0.0, subnormals, extremes, 24-byte renderings, random bit patterns; arbitrary strings and keys; nesting) through from_serde_json then into_serde_json (and the From impls) must come back equal; json-syntax values (every number class, with and without duplicates, 400-digit integers, 1e999, 1e-999) through into_serde_json then from_serde_json must be equal up to entry order and number spelling when in the stated domain; both directions under catch_unwind on all values; distinct by hash",
+			rule: "cases: serde_json values (all three number representations incl. u64::MAX, i64::MIN, -0.0, subnormals, extremes, 24-byte renderings, random bit patterns; arbitrary strings and keys; nesting) through from_serde_json then into_serde_json (and the From impls) must come back equal; json-syntax values (every number class, with and without duplicates, 400-digit integers, 1e999, 1e-999) through into_serde_json then from_serde_json must be equal up to entry order and number spelling when in the stated domain; containers of 65,537-200,001 members and large containers nested in large containers (arrays and objects of 300-70,000 members, inner one early / in the middle / last); both directions under catch_unwind on all values; distinct by hash",
 			exhaustive: false,
 			assumptions: vec![
 				"known finding K3: into_serde_json panics (json-number serde_json.rs, from_f64(inf).unwrap()) for numbers whose magnitude overflows f64".into(),
